@@ -33,6 +33,10 @@ package ecmascript
 // values that were exposed to it - all of which were allocated after `mark`
 // (the exposure obligations of Exec below make sure of that).
 //@ iface github.com/dop251/goja.Value.Export(recv) returns (r)
+// Exporting an object runs its getters, which are code of the script and may
+// throw: a call must be under a recover (goja's own, inside RunProgram, for the
+// closures the script calls; a deferred recover of the calling function otherwise).
+//@   maypanic
 //@   logical mark ref
 //@   modifies nothing
 //@   ensures ref(r) == nil || ref(r) >= mark
